@@ -1098,6 +1098,9 @@ class Interp(object):
                 return Adt("core::option::Option", 1, "Some", [self.exec_closure(st, args[1], [])])
             raise Undecided("bool::then with an unmodelled closure")
         if c in self.prog.fns and self.depth < 4:
+            import inline
+            if not t.get("resolved") and inline._dispatches_on_self(self.prog.fns, c):
+                raise Undecided("call of %s on a generic Self: the trait's default body is overridden by some impl" % c)
             return self.exec_fn(st, self.prog.fns[c], args)
         raise Undecided("call of %s" % c)
 
